@@ -164,6 +164,38 @@ func (m *Model) RunTokPos(s *Sink, rule string) {
 			s.OK(rule, key, "-", "only %s", fnKey(owner[f][0]))
 		}
 	}
+	// the line counter advances exactly after a line feed
+	{
+		var v ssa.Value
+		var at ssa.Instruction
+		for _, b := range readChar.Blocks {
+			for _, in := range b.Instrs {
+				if st, ok := in.(*ssa.Store); ok {
+					if fa, ok := st.Addr.(*ssa.FieldAddr); ok && fieldName(fa.X.Type(), fa.Field) == "shouldResetCol" {
+						if k, isK := st.Val.(*ssa.Const); isK && k.Value != nil {
+							continue // the reset to false
+						}
+						v, at = st.Val, st
+					}
+				}
+			}
+		}
+		key := "lexer.(*Lexer).readChar|a new line starts exactly after \\n"
+		ok := false
+		if bo, isBo := v.(*ssa.BinOp); isBo && bo.Op == token.EQL && fieldPathOf(bo.X) == ".char" {
+			if k, isK := bo.Y.(*ssa.Const); isK && k.Int64() == '\n' {
+				ok = true
+			}
+		}
+		switch {
+		case v == nil:
+			s.Undecided(rule, key, m.Pos(readChar.Pos()), "the store that arms the line advance (shouldResetCol) was not found in readChar")
+		case ok:
+			s.OK(rule, key, m.InstrPos(at), "shouldResetCol = (l.char == '\\n'): a carriage return belongs to the line it ends")
+		default:
+			s.Violation(rule, key, m.InstrPos(at), "the line counter is armed by %s instead of exactly l.char == '\\n': with CRLF (or other bytes) lines are counted twice or not at all, so every later token and error carries a wrong line", valueDesc(v))
+		}
+	}
 	// (b) tokens with positions are built only by newToken (inside the lexer)
 	nb := 0
 	for _, fn := range lexFns {
